@@ -14,9 +14,11 @@ if [ "${SKIP_SUITE:-0}" != 1 ]; then
   if go test -vet=off -count=1 ./... >/dev/null 2>&1; then echo "suite: green"; else echo "suite: RED (mutant is caught by the existing tests)"; fi
 fi
 cd /verif
+rm -rf /verif/.build/evidence.keep && cp -r /verif/evidence /verif/.build/evidence.keep
 for p in "$@"; do
   ./bin/verifrun -property "$p" -tier quick ${SCALE:+-scale $SCALE} 2>&1 | grep -E "VIOLATION|KNOWN|INCONCLUSIVE|seed=" | cut -c1-300 | head -8
   echo "  -> $p exit=$?"
 done
 git -C /repo checkout -- .
+rm -rf /verif/evidence && mv /verif/.build/evidence.keep /verif/evidence
 rm -f /verif/replays/C[0-9][0-9]-*.json
